@@ -6,7 +6,7 @@ here=$(cd "$(dirname "$0")" && pwd)
 cd "$here"
 mkdir -p build .deps evidence
 if [ -f native/fsshim.c ]; then
-  gcc -O2 -shared -fPIC -o build/fsshim.so native/fsshim.c -ldl -lpthread
+  gcc -O2 -shared -fPIC -w -o build/fsshim.so native/fsshim.c -ldl -lpthread
 fi
 /venv/bin/python -m pip install -q --no-index --find-links /opt/veriftools/wheels \
    --target .deps numpy icontract deal >/dev/null 2>&1 || \
